@@ -636,8 +636,10 @@ class TopLevelVisitor(ast.NodeVisitor):
                 startline = sourcelines[cand_start_]
 
                 # The startline should also begin with the same triple quote
-                # Account for raw strings. Note f-strings cannot be docstrings
-                if startline.strip().startswith((trip, 'r' + trip)):
+                # Account for raw and unicode prefixes in either case. Note
+                # f-strings and byte strings cannot be docstrings
+                if startline.strip().startswith((trip, 'r' + trip, 'R' + trip,
+                                                 'u' + trip, 'U' + trip)):
                     # Both conditions pass.
                     start = cand_start_
                     break
